@@ -163,6 +163,14 @@ def gen(rng, tier, cfg):
                 add(Op(o, q, t), "QT%d" % o); add(Op(o, q, d), "QD%d" % o)
             for o in range(1, 5):
                 add(Op(o, t, q), "TQ%d" % o); add(Op(o, d, q), "DQ%d" % o)
+    # operands that cancel or coincide exactly (results +-0, +-1): the sign of a zero is part of the exact f32 result
+    for n_ in [0, 1, -1, 2, -2, 5, 1000000000, -1000000000, 3000000000, 500000000, -250000000, 16777216, 123456789, -987654321, 2147483648, -2147483648]:
+        qt = f32_div_bits(f32_of_int_bits(n_), f2b(1e9)); qd = f32_of_int_bits(n_)
+        for sgn in (0, 0x80000000):
+            for o in range(1, 9):
+                add(Op(o, Lit(vQ(qt ^ sgn, 0, 1)), Lit(vT(n_))), "QT%d" % o); add(Op(o, Lit(vQ(qd ^ sgn, 0, 0)), Lit(vD(n_))), "QD%d" % o)
+            for o in range(1, 5):
+                add(Op(o, Lit(vT(n_)), Lit(vQ(qt ^ sgn, 0, 1))), "TQ%d" % o); add(Op(o, Lit(vD(n_)), Lit(vQ(qd ^ sgn, 0, 0))), "DQ%d" % o)
     return cases, tags
 
 
